@@ -24,6 +24,7 @@ import (
 	"strconv"
 	"strings"
 
+	"github.com/cosmos72/gomacro/base"
 	"github.com/cosmos72/gomacro/fast"
 )
 
@@ -40,7 +41,15 @@ var c12 struct {
 	fresh  []string
 	oracle map[string]string // op text -> "out=.. log=.." from compiled Go
 	oerr   string
+	at     int  // calls of the scripted debugger during the current op
+	dbg    bool // interpreter created by resetd (OptDebugger + scripted debugger)
 }
+
+// scripted debugger: counts its calls and always answers "step"
+type c12debugger struct{}
+
+func (c12debugger) Breakpoint(ir *fast.Interp, env *fast.Env) fast.DebugOp { c12.at++; return fast.DebugOpStep }
+func (c12debugger) At(ir *fast.Interp, env *fast.Env) fast.DebugOp         { c12.at++; return fast.DebugOpStep }
 
 func c12val(e interface{}) int {
 	switch v := e.(type) {
@@ -82,8 +91,14 @@ var c12battery = []string{
 	`func() int { c := 0; f := func() { c++ }; for i := 0; i < 100; i++ { f() }; return c }()`,
 }
 
-func c12new() *fast.Interp {
+func c12new() *fast.Interp { return c12newDbg(false) }
+
+func c12newDbg(dbg bool) *fast.Interp {
 	ir := newQuietInterp()
+	if dbg {
+		ir.Comp.Globals.Options |= base.OptDebugger
+		ir.SetDebugger(c12debugger{})
+	}
 	ir.DeclFunc("hook", c12hook)
 	ir.DeclFunc("rec", c12rec)
 	ir.DeclFunc("try", c12try)
@@ -196,6 +211,9 @@ func run1(k int, f func()) (out string) {
 	seen := map[string]bool{}
 	for _, op := range ops {
 		f, arg, _ := strings.Cut(op, " ")
+		if f == "evald" {
+			f, op = "eval", "eval "+arg
+		}
 		if f != "eval" || seen[op] {
 			continue
 		}
@@ -256,24 +274,38 @@ func c12snap() string {
 	if r.Interrupt != nil {
 		in = "s"
 	}
-	return fmt.Sprintf("es=%s ed=%s dof=%s pf=%s pv=%d ce=%s in=%s", b(r.ExecFlags.StartDefer()), b(r.ExecFlags.IsDefer()),
-		opt(r.DeferOfFun), pf, c12val(r.Panic), opt(r.CurrEnv), in)
+	dd := "0"
+	if r.DebugDepth != 0 {
+		dd = "M"
+		if r.DebugDepth != fast.MaxInt {
+			dd = strconv.Itoa(r.DebugDepth)
+		}
+	}
+	return fmt.Sprintf("es=%s ed=%s dof=%s pf=%s pv=%d ce=%s in=%s dbg=%s dd=%s sd=%s at=%s", b(r.ExecFlags.StartDefer()), b(r.ExecFlags.IsDefer()),
+		opt(r.DeferOfFun), pf, c12val(r.Panic), opt(r.CurrEnv), in, b(r.ExecFlags.IsDebug()), dd, b(r.Signals.Debug != base.SigNone), b(c12.at > 0))
 }
 
 func c12exec(op string) Result {
 	f, arg, _ := strings.Cut(op, " ")
 	switch f {
-	case "reset":
+	case "reset", "resetd":
 		if c12.fresh == nil {
 			c12.fresh = c12runBattery(c12new())
 		}
-		c12.ir = c12new()
+		c12.dbg = f == "resetd"
+		c12.ir = c12newDbg(c12.dbg)
 		c12.top = c12.ir.PrepareEnv()
 		c12.run = c12.top.Run
 		return Result{Out: "ok", Tags: []string{"reset"}}
 	case "battery":
+		c12.at = 0
 		got := c12runBattery(c12.ir)
 		r := Result{Out: "same", Tags: []string{"battery"}}
+		if c12.at > 0 {
+			r.Viol = fmt.Sprintf("the debugger was called %d times during the battery of plain evaluations", c12.at)
+			r.Key = "debugger-mode-left-armed"
+			return r
+		}
 		for i := range got {
 			if got[i] != c12.fresh[i] {
 				r.Viol = fmt.Sprintf("after the aborted evaluation(s), %s = %s but a fresh interpreter gives %s", c12battery[i], got[i], c12.fresh[i])
@@ -285,7 +317,7 @@ func c12exec(op string) Result {
 			}
 		}
 		return r
-	case "eval":
+	case "eval", "evald":
 		fs := strings.SplitN(arg, " ", 3)
 		if len(fs) != 3 || c12.ir == nil {
 			return Result{Out: "bad-op"}
@@ -304,6 +336,7 @@ func c12exec(op string) Result {
 		for j := len(p) - 1; j >= first; j-- {
 			fmt.Fprintf(&decl, "func %s() { %s}\n", name(j), c12stmts(p[j], name))
 		}
+		c12.at = 0
 		if decl.Len() > 0 {
 			if _, e := evalSrc(c12.ir, decl.String()); e != "" {
 				return Result{Out: "decl-error " + e, Viol: "probe declarations rejected: " + e, Key: "probe-decl"}
@@ -325,7 +358,11 @@ func c12exec(op string) Result {
 					}
 				}
 			}()
-			c12.ir.Eval(src)
+			if f == "evald" {
+				c12.ir.Debug(src) // Interp.DebugExpr: single-step mode, the scripted debugger answers "step"
+			} else {
+				c12.ir.Eval(src)
+			}
 		}()
 		sem := "out=" + out + " log=" + c12logStr(c12.log)
 		r := Result{Out: sem + " " + c12snap(), Nontrivial: true,
@@ -333,7 +370,13 @@ func c12exec(op string) Result {
 		if strings.HasPrefix(out, "panic 901") {
 			r.Tags = append(r.Tags, "nil-stmt-crash")
 		}
-		want, ok := c12.oracle[op]
+		want, ok := c12.oracle["eval "+arg]
+		if f == "eval" && c12.at > 0 {
+			// a plain Eval never enters the debugger on a fresh interpreter (no breakpoints in the probes)
+			r.Viol = fmt.Sprintf("the debugger was called %d times during a plain Eval: single-step mode left armed by an earlier (aborted) evaluation", c12.at)
+			r.Key = "debugger-mode-left-armed"
+			return r
+		}
 		switch {
 		case c12.oerr != "":
 			r.Viol, r.Key = "compiled-Go oracle unavailable: "+truncate(c12.oerr, 300), "oracle-build"
@@ -447,6 +490,30 @@ func c12gen(r *rand.Rand, tier string, emit func(string)) {
 			}
 		}
 	}
+	// (1b) debugger: OptDebugger + scripted debugger; an evaluation started with Interp.Debug (single-step mode) is
+	// aborted at every fault point, then a plain evaluation and the battery follow in the same interpreter
+	dprogs := []string{"h,c1,h/h,h", "d1,h,c2,h/r,h/h,h", "d1,h,x5/h,r", "t1,h/d2,h,x7/h,r", "c1,h/d2,c3,h/r,h/h", "h,x3"}
+	for _, d := range dprogs {
+		for _, kind := range []string{"F", "T"} {
+			for k := 0; k <= c12hooks(d)+1; k++ {
+				emit("resetd")
+				emit(fmt.Sprintf("evald %d %s %s", k, kind, c12top(kind, d)))
+				emit(fmt.Sprintf("eval 0 F %s", dprogs[(k+1)%len(dprogs)]))
+				emit("battery")
+			}
+		}
+	}
+	for i := 0; i < nseq/2; i++ {
+		emit("resetd")
+		n := 2 + r.Intn(4)
+		for j := 0; j < n; j++ {
+			d := dprogs[r.Intn(len(dprogs))]
+			kind := []string{"F", "T"}[r.Intn(2)]
+			op := []string{"eval", "evald"}[r.Intn(2)]
+			emit(fmt.Sprintf("%s %d %s %s", op, r.Intn(c12hooks(d)+2), kind, c12top(kind, d)))
+		}
+		emit("battery")
+	}
 	// (2) histories: several evaluations in ONE interpreter (later evaluations see what earlier aborted ones left)
 	for i := 0; i < nseq; i++ {
 		emit("reset")
@@ -550,6 +617,43 @@ func extractC12(repo, genDir string) error {
 		fmt.Fprintf(&b, "(%q, %q, %q, %d)", s.field, s.where, s.kind, cnt[s])
 	}
 	b.WriteString("]\n\n")
+	// where RunExpr / DebugExpr rewrite the debugger mode relative to running the code: (function, argument, position)
+	var dbgCalls []string
+	if file, err := parser.ParseFile(fset, filepath.Join(repo, "fast", "repl.go"), nil, 0); err == nil {
+		for _, d := range file.Decls {
+			fd, ok := d.(*ast.FuncDecl)
+			if !ok || fd.Body == nil || (fd.Name.Name != "RunExpr" && fd.Name.Name != "DebugExpr") {
+				continue
+			}
+			ran := false
+			for _, st := range fd.Body.List {
+				txt := c13src(fset, st)
+				if strings.Contains(txt, "fun(env)") {
+					ran = true
+					continue
+				}
+				ast.Inspect(st, func(n ast.Node) bool {
+					c, ok := n.(*ast.CallExpr)
+					if !ok || !strings.HasSuffix(c13src(fset, c.Fun), ".applyDebugOp") || len(c.Args) != 1 {
+						return true
+					}
+					pos := "before"
+					if ran {
+						pos = "after"
+					}
+					if _, isDefer := st.(*ast.DeferStmt); isDefer {
+						pos = "deferred"
+					}
+					if _, isExpr := st.(*ast.ExprStmt); !isExpr && pos != "deferred" {
+						pos = "nested-" + pos
+					}
+					dbgCalls = append(dbgCalls, fmt.Sprintf("(%q, %q, %q)", fd.Name.Name, c13src(fset, c.Args[0]), pos))
+					return true
+				})
+			}
+		}
+	}
+	fmt.Fprintf(&b, "/-- calls of `applyDebugOp` in `Interp.RunExpr` / `Interp.DebugExpr`: (function, argument, before|after|deferred w.r.t. `fun(env)`) -/\ndef debugOpCalls : List (String × String × String) :=\n  [%s]\n\n", strings.Join(dbgCalls, ", "))
 	// does reExecWithFlags remember Panic / PanicFun when it starts panicking and reinstate them on exit? (a642365)
 	saves := false
 	if src, err := os.ReadFile(filepath.Join(repo, "fast", "code.go")); err == nil {
